@@ -29,6 +29,10 @@ var Props = map[string]PropFn{
 	"C19": propC19,
 	"C08": propC08,
 	"C09": propC09,
+	"C06": propC06,
+	"C05": propC05,
+	"C03": propC03,
+	"C02": propC02,
 }
 
 func propC01(c *Ctx) int {
@@ -429,4 +433,145 @@ func propC09(c *Ctx) int {
 		"pieces are cut at directive boundaries only (not inside a directive); JSIGHT stays in the root file; file system = virtual",
 		contractLoc, contractRune,
 	}, map[string]interface{}{})
+}
+
+func propC06(c *Ctx) int {
+	thorough := c.Tier == "thorough"
+	docs := []int64{0, 1, 2, 3, 4, 5, 7}
+	if thorough {
+		docs = []int64{0, 1, 2, 3, 4, 5, 6, 7, 8, 9}
+	}
+	totalSites := 0
+	for _, doc := range docs {
+		for site := int64(0); site < 40; site++ {
+			jr := c.RunJob(Job{Name: fmt.Sprintf("determinism doc#%d map-site=%d", doc, site), Pkg: "core", Fn: "HDeterminism", Params: map[string]int64{"doc": doc, "site": site},
+				Stubs: []string{"rune"}, PanicIsViolation: true, MaxPaths: 20000, Timeout: 30 * time.Minute, MaxSteps: 20000000, MaxDepth: 1000, Quiet: true,
+				AllowDrops: []string{"on symbolic operand"}})
+			if jr.Stats.Reached["no-such-site"] > 0 {
+				break
+			}
+			totalSites++
+		}
+	}
+	static := StaticNondeterminismScan(c)
+	return c.Finish("model_checking", []string{
+		"dynamic part: each project is built with insertion-ordered maps and built again with ONE range-over-map site (sites numbered in execution order, in the repository and in jsight-schema-core alike) iterating in a symbolic order — a full symbolic permutation (Lehmer code) for maps of <= 4 entries, a symbolic rotation + optional reversal above; every execution of that site uses the same symbolic order; the solver looks for an order that changes accept/reject, message, file, index, include trace or the catalog digest",
+		fmt.Sprintf("projects: 5 determinism fixtures (several enums/types/path variables/allOf; two independent faults; three recursive macros; property overrides; path parameters defined on several levels) + layout skeletons; %d (project, site) pairs this run", totalSites),
+		"interactions between the orders of two different sites, cross-process effects other than map order, and everything below json.Marshal are outside the claim; a counterexample is confirmed natively by rebuilding the project 200 times (Go randomises map iteration)",
+		"static part (evidence.coverage.static_scan): every range-over-map, time / math/rand / os.Getenv call and pointer-to-integer conversion in the repository's packages, from the SSA of the current tree",
+		contractRune,
+	}, map[string]interface{}{"static_scan": static, "site_pairs": totalSites})
+}
+
+func propC05(c *Ctx) int {
+	thorough := c.Tier == "thorough"
+	base := Job{Pkg: "core", Stubs: []string{"loc", "rune"}, PanicIsViolation: true, MaxPaths: 500000, Timeout: time.Hour, MaxSteps: 8000000, MaxDepth: 1000, Quiet: true,
+		AllowDrops: []string{"on symbolic operand"}}
+	{
+		j := base
+		j.Quiet = false
+		j.Name, j.Fn, j.MustReach = "tags model", "HTagsModel", []string{"closed", "undeclared"}
+		c.RunJob(j)
+	}
+	// closure invariants on every accepted document of the hole family
+	rng := rand.New(rand.NewSource(c.Seed + 5))
+	for doc, L := range HoleDocLens {
+		var cuts []int
+		if thorough {
+			for p := 0; p <= L; p += 2 {
+				cuts = append(cuts, p)
+			}
+		} else {
+			for i := 0; i < 14; i++ {
+				cuts = append(cuts, rng.Intn(L+1))
+			}
+		}
+		for _, cut := range cuts {
+			j := base
+			j.Name, j.Fn = fmt.Sprintf("closure hole doc#%d cut=%d", doc, cut), "HClosureHole"
+			j.Params = map[string]int64{"doc": int64(doc), "cut": int64(cut), "k": 2, "mode": 1}
+			c.RunJob(j)
+		}
+	}
+	// the same invariants on the skeletons rewritten by INCLUDE / PASTE (accepted documents of other families)
+	for _, p := range [][3]int64{{0, 2, 1}, {2, 2, 1}, {0, 3, 2}} {
+		j := base
+		j.Name, j.Fn, j.Params = fmt.Sprintf("closure after split doc#%d span=%d depth=%d", p[0], p[1], p[2]), "HIncludeSplit", map[string]int64{"doc": p[0], "span": p[1], "depth": p[2], "closure": 1}
+		c.RunJob(j)
+	}
+	{
+		j := base
+		j.Name, j.Fn, j.Params = "closure after paste", "HPasteText", map[string]int64{"closure": 1}
+		c.RunJob(j)
+	}
+	return c.Finish("model_checking", []string{
+		"closure invariants (harness/core/zz_verif_c05.go vCheckClosure) asserted on the catalog structs of every ACCEPTED document: interaction key == id == '<protocol> <method> <path>'; every tag named by an interaction exists and lists it exactly once under its protocol, and vice versa; pathVariables present exactly when the path has {parameters}; response codes 1xx-5xx with a body; JSIGHT version 0.3",
+		"document families: TAG/Tags model with symbolic tag choices (incl. the same tag twice and an undeclared tag, URL-level and method-level Tags, HTTP and JSON-RPC); representative documents with a 2-byte symbolic substitution hole (sampled cuts in the quick tier); INCLUDE-split and MACRO/PASTE rewrites of the skeletons",
+		"outside: usedUserTypes/usedUserEnums (computed by jsight-schema-core, visible only in the JSON), the JSON rendering itself (encoding/json), names of the pathVariables schema properties",
+		contractLoc, contractRune,
+	}, map[string]interface{}{})
+}
+
+func propC03(c *Ctx) int {
+	base := Job{Pkg: "core", Stubs: []string{"rune"}, PanicIsViolation: true, MaxPaths: 100000, Timeout: time.Hour, MaxSteps: 8000000, MaxDepth: 1000}
+	{
+		j := base
+		j.Name, j.Fn, j.MustReach = "fault catalogue x placement", "HFault", []string{"fault-rejected"}
+		c.RunJob(j)
+	}
+	{
+		j := base
+		j.Name, j.Fn, j.MustReach = "symbolic names", "HFaultNames", []string{"duplicate-found", "distinct"}
+		c.RunJob(j)
+	}
+	{
+		j := base
+		j.Name, j.Fn, j.MustReach = "JSIGHT missing / not first / wrong version", "HFaultJsight", []string{"jsight-fault-rejected"}
+		c.RunJob(j)
+	}
+	return c.Finish("model_checking", []string{
+		"fault catalogue (harness/core/zz_verif_c03.go, 28 classes: duplicate interaction/type/enum/server/tag/macro/OperationId, similar and duplicated path parameters, second Title/Version/Description/Query/Request body/Headers/BaseUrl/Protocol, undefined type/tag/macro, missing required parameter, forbidden annotation, JSIGHT repeated, Type+SchemaNotation, Method without Protocol) injected into a valid document; fault class and placement (root file / INCLUDEd file / pasted MACRO body) are symbolic; oracle: rejected, message of that class, located in the file and on the line of the offending directive (real jerr.NewLocation, no contract stub)",
+		"symbolic names: a TYPE/ENUM/SERVER/TAG/MACRO/OperationId/method path with a symbolic two-byte name is appended: rejected as duplicate on that directive exactly when the name equals the existing name of its kind (the solver finds the equal-name case), accepted otherwise",
+		"outside: faults crossed with layouts (C08), rule/example mismatches inside schemas (jsight-schema-core)",
+		"JSIGHT missing, not first, without version, with a wrong (symbolic) version: rejected on line 1",
+		contractRune,
+	}, map[string]interface{}{})
+}
+
+func propC02(c *Ctx) int {
+	thorough := c.Tier == "thorough"
+	base := Job{Pkg: "core", Fn: "HModel", Stubs: []string{"loc", "rune"}, PanicIsViolation: true, MaxPaths: 200000, Timeout: time.Hour, MaxSteps: 8000000, MaxDepth: 1000, Quiet: true}
+	rng := rand.New(rand.NewSource(c.Seed + 2))
+	jobs1, jobs2, bits1, bits2 := 6, 8, 8, 7
+	if thorough {
+		jobs1, jobs2, bits1, bits2 = 30, 50, 10, 9
+	}
+	reached := 0
+	mk := func(n int, nfeat int, nbits int) {
+		mask := int64(0)
+		for _, b := range rng.Perm(nfeat)[:nbits] {
+			mask |= 1 << uint(b)
+		}
+		fixed := rng.Int63n(1 << 50)
+		j := base
+		j.Name, j.Params = fmt.Sprintf("model n=%d mask=%x fixed=%x", n, mask, fixed), map[string]int64{"n": int64(n), "mask": mask, "fixed": fixed}
+		jr := c.RunJob(j)
+		reached += jr.Stats.Reached["model-roundtrip"]
+	}
+	for i := 0; i < jobs1; i++ {
+		mk(1, 26, bits1)
+	}
+	for i := 0; i < jobs2; i++ {
+		mk(2, 46, bits2)
+	}
+	if reached == 0 {
+		c.Results[0].Inconclusive = append(c.Results[0].Inconclusive, "vacuity: no model round-trip was reached")
+	}
+	c.Log("model round-trips reached: %d", reached)
+	return c.Finish("model_checking", []string{
+		"abstract model (harness/core/zz_verif_c02.go): INFO (title, version, description), SERVER, TAG, TYPE, ENUM, 1..2 HTTP interactions (method x path pools, annotation, description, query, request none/any/schema/headers+body, OperationId, Tags or path tag, 1..2 responses in either order with any/@type/inline schema bodies, response headers and annotations), rendered with URL grouping or stand-alone methods, explicit ( ) or implicit contexts, // or /* */ annotations",
+		fmt.Sprintf("each job makes %d (1 interaction) / %d (2 interactions) of the ~26/46 feature choices symbolic (seeded selection, the solver explores all their combinations) and fixes the rest (seeded); %d+%d jobs this run; the expected catalog digest is computed from the model alone and compared entry by entry (nothing missing, nothing invented, order, attachment to the right interaction/response), followed by the C05 closure invariants", bits1, bits2, jobs1, jobs2),
+		"outside: JSON emission (encoding/json), JSON-RPC models, more than two interactions, combinations of more feature choices than the symbolic ones of a job, MACRO/PASTE and INCLUDE renderings (covered relationally by C10/C09), layout variants (C08)",
+		contractLoc, contractRune,
+	}, map[string]interface{}{"model_roundtrips": reached})
 }
